@@ -177,7 +177,7 @@ package parquet
 //@   modifies heap("parquet.readCounter"), srcPos, rfault
 //@   ensures[C10] err == nil ==> (rfault ==> old(rfault))
 //@   ensures[C11] err == nil ==> srcSize >= 8 && srcMagic(srcSize - 4) && srcLE32(srcSize - 8) + 8 <= srcSize
-//@   ensures[C08] err == nil ==> srcPos == srcSize - 8 - srcLE32(srcSize - 8) + thriftLen(srcB, srcSize - 8 - srcLE32(srcSize - 8))
+//@   ensures[C08,C16] err == nil ==> srcPos == srcSize - 8 - srcLE32(srcSize - 8) + thriftLen(srcB, srcSize - 8 - srcLE32(srcSize - 8))
 
 //@ func (*Metadata).ReadFooter
 //@   requires m != nil && external(r)
@@ -322,6 +322,7 @@ package parquet
 //@   invariant (rfault ==> old(rfault))
 
 //@ func PageHeaders
+//@   verify[C16]
 //@   requires footer != nil && external(r)
 //@   modifies heap("parquet.readCounter"), srcPos, rfault, vPage, vDefs
 //@   ensures[C10] err == nil ==> (rfault ==> old(rfault))
